@@ -67,6 +67,11 @@ def generate(seed, tier):
             "capture": vr.random() < 0.2,
             "profile": vr.random() < 0.25,
         })
+    # some seeds use the (number, string) form of RandState.mkFromSeed
+    svr = st.sub("seedstr")
+    for o in ops:
+        if o["op"] == "seed" and svr.random() < 0.35:
+            o["sv"] = svr.choice(["t", "test_a", "uvm_test_top.env.agent[%d]" % svr.randint(0, 9), "", "Zürich"])
     return {"prop": ID, "seed": seed, "prog": prog, "noise_prog": nprog, "ops": ops,
             "variants": variants, "gseed": st.lib.randint(0, 1 << 30), "top": top, "kind": kind,
             "unseeded": unseeded,
